@@ -12,6 +12,9 @@ use crate::{
     position::SourceSpan, Position,
 };
 
+#[cfg(feature = "verif")]
+mod verif;
+
 /// Graph Structured Stack
 ///
 /// Nodes keep information about state while edges keep all alternative
